@@ -1025,6 +1025,10 @@ impl Transaction {
                 error!("ERROR: SPV transaction contains invalid hash");
                 return false;
             }
+            if self.to.iter().any(|slip| slip.amount > 0) {
+                error!("ERROR: SPV transaction creates outputs");
+                return false;
+            }
 
             return true;
         }
